@@ -700,7 +700,9 @@ func c14ReadDecls(dir string, s *tlparser.Schema) string {
 				}
 			}
 			for _, nm := range f.Names {
-				fmt.Fprintf(&fs, " (f %s %s %s)", strings.ToLower(nm.Name), typeStr(f.Type), tag)
+				// a trailing underscore is how the generator keeps a field apart from a method of the struct
+				// (CRC, FlagIndex, Implements…): field names are compared up to case and that escape, like arguments
+				fmt.Fprintf(&fs, " (f %s %s %s)", strings.ToLower(strings.TrimSuffix(nm.Name, "_")), typeStr(f.Type), tag)
 			}
 		}
 		add(st.crc, 0, fmt.Sprintf("(d %d %s %s %s%s)", st.crc, kind, obj, st.flagIdx, fs.String()))
